@@ -40,6 +40,9 @@ def menu(d):
     M["params-and-regs"] = H + "\nG({a}+{alpha}, q1-q0) | 0\nH({b}) | [1, 0]\n"
     M["array-params"] = H + "\nfloat array A =\n    {a}, 1\n    {alpha}, {b}\nG({a}) | 0\n"
     M["array-arguments"] = H + "\nfloat array A =\n    1.5, 2.5\ncomplex array U =\n    1j, 2\n    3, -4j\nG(A, {a}) | 0\nH(U, k=A) | [1, 0]\nK(A) | 1\n"
+    M["zeros-positive"] = H + "\nG(0.0, 1, k=[0.0, 0j], l=1.0) | 0\nH(True, 0) | 1\n"
+    M["zeros-negative"] = H + "\nG(-0.0, 1.0, k=[-0.0, -0j], l=1) | 0\nH(1, False) | 1\n"
+    M["affine"] = H + "\nG(2*{a}-1, 1-{b}/3) | 0\nH(k=0.5*{a}*{b}-{a}+2) | 1\n"
     M["scalar-var"] = H + "\nfloat x = {a}*{alpha}\nG(x, {b}) | 0\n"
     M["whole-array"] = H + "\nfloat array A[2, 2] =\n    {P}\nG({a}) | 0\n"
     M["tdm"] = H + "type tdm (temporal_modes=2)\n\nfloat array p0 =\n    0.5, 1.5\nint array p1 =\n    1, 2\nG(p0, {a}+{alpha}) | 0\nH(p1) | 1\n"
@@ -122,6 +125,17 @@ def repeat_check(text):
             fresh = blackbird.dumps(blackbird.loads(text)(**_vals(p)))
             out["instance-dumps-twice-same-text"] = (u1 == u2)
             out["instance-text-independent-of-earlier-dumps"] = (u1 == fresh)
+            # a call that is refused (a value is missing) must leave no trace either
+            vals = _vals(p)
+            if len(vals) >= 1:
+                try:
+                    p(**{k_: v_ for k_, v_ in list(vals.items())[1:]})
+                    out["missing-value-refused"] = False
+                except ValueError:
+                    pass
+                except Exception as e:  # noqa
+                    out["missing-value-raises"] = type(e).__name__
+                out["instance-text-independent-of-an-earlier-refused-call"] = (blackbird.dumps(p(**vals)) == fresh)
         except Exception as e:  # noqa
             out["instance"] = "EXC:" + type(e).__name__
     observe.reset_tables()
@@ -245,7 +259,11 @@ for g in c19.GROUPS:
     orders["str:" + ",".join(g)] = list(set(g))
     orders["sym:" + ",".join(g)] = [str(x) for x in set(sympy.symbols(g))]
 out = {}
-for k, text in M.items():
+# every process goes through the menu in another rotation: what a script gives must not depend on what the process
+# has loaded or serialised before it
+items = list(M.items())
+rot = %(seed)d %% len(items)
+for k, text in items[rot:] + items[:rot]:
     try:
         out[k] = json.dumps(c19.pipeline(text), sort_keys=True)
     except Exception as e:
@@ -270,7 +288,7 @@ def _seed_run(task):
     env = dict(os.environ)
     env["PYTHONHASHSEED"] = str(seed)
     cw = cwds(d)
-    r = subprocess.run([sys.executable, "-c", WORKER % {"verif": verif, "d": d, "cwd": cw[seed % len(cw)]}], capture_output=True, text=True, env=env)
+    r = subprocess.run([sys.executable, "-c", WORKER % {"verif": verif, "d": d, "cwd": cw[seed % len(cw)], "seed": seed}], capture_output=True, text=True, env=env)
     if r.returncode != 0:
         raise RuntimeError("seed worker %d failed: %s" % (seed, r.stderr[-400:]))
     return json.loads(r.stdout.strip().split("\n")[-1])
